@@ -30,6 +30,7 @@ structure Transc.Lawful (T : Transc K) : Prop where
   pow10_pos : ∀ x, 0 < T.pow10 x
   pow10_add : ∀ x y, T.pow10 (x + y) = T.pow10 x * T.pow10 y
   pow10_zero : T.pow10 0 = 1
+  pow10_strictMono : ∀ x y, x < y → T.pow10 x < T.pow10 y
   log10_mul : ∀ x y, 0 < x → 0 < y → T.log10 (x * y) = T.log10 x + T.log10 y
   log10_one : T.log10 1 = 0
   exp_ln : ∀ x, 0 < x → T.exp (T.ln x) = x
